@@ -75,6 +75,23 @@ def F11():
     return (r is not None and r != 1001), f"client closed with 1001, websocket.disconnect carried code {r}"
 
 
+def F3b():
+    """a valid WebSocket request whose client goes away before the application has answered it:
+    the request leaves no access-log record at all (an HTTP request closed at the same point gets
+    one)"""
+    async def app(scope, receive, send):
+        await receive()  # websocket.connect
+        await receive()  # websocket.disconnect: the application gives up without an answer
+
+    async def sc(h):
+        await h.feed(UPGRADE)
+        await h.proto.handle(Closed())
+        await h.settle()
+        return list(h.log.records)
+    h, r, exc = run_h1(app, sc)
+    return (exc is None and r == []), f"access records of the request after the connection was closed and the application returned: {r}"
+
+
 def F11b():
     """the application answers the handshake with the HTTP-response extension (still sending the
     body) and the client sends data meanwhile: a second response head (400) is attempted"""
